@@ -241,6 +241,9 @@ def step(res, binp, tier, seed, workdir):
     n = N[tier] if tier in N else N["quick"]
     rng = qv.Rng(seed).fork(COMP)
     t0 = time.time()
+    okm, mlog = qv.coq_make(["Model/UdpLoop.vo", "Lib/Corr.vo"])
+    if not okm:
+        res.notes.append("model build failed: " + mlog[-1500:])
     cases = gen(rng, n)
     # real sockets: run with little parallelism so that loopback queues never overflow
     outs = []
